@@ -366,7 +366,14 @@ func (cr *caseRun) answer(sc *shClient, verb string, tag int, id string, delayMs
 		op = fmt.Sprintf("OFin %d %d", sc.k, tag)
 	case "REQ":
 		line = fmt.Sprintf("REQ %s %d", id, delayMs)
-		op = fmt.Sprintf("OReq %d %d %s %s", sc.k, tag, z(delayMs*1000000), z(now))
+		// a delay above --max-req-timeout is clamped to it (documented); the model is told
+		// the delay that must take effect
+		eff := delayMs
+		if maxMs := int64(cr.opts.MaxReqTimeout / time.Millisecond); eff > maxMs {
+			eff = maxMs
+			cr.tag("req-delay-above-max-req-timeout")
+		}
+		op = fmt.Sprintf("OReq %d %d %s %s", sc.k, tag, z(eff*1000000), z(now))
 	case "TOUCH":
 		line = "TOUCH " + id
 		op = fmt.Sprintf("OTouch %d %d %s", sc.k, tag, z(now))
